@@ -111,6 +111,12 @@ func (s *Session) execCallWith(st *State, c *ssa.CallCommon, fnv Value, args []V
 			k(st, s.freshResults(st, sig, "dyn"))
 			return
 		}
+		if nt, ok := c.Value.Type().(*types.Named); ok && nt.Obj().Pkg() != nil && nt.Obj().Pkg().Path() == "context" && nt.Obj().Name() == "CancelFunc" {
+			// assumed contract of the standard library: a context.CancelFunc only cancels its context
+			s.trusted["context.CancelFunc"] = true
+			k(st, s.freshResults(st, sig, "dyn"))
+			return
+		}
 		s.note(fmt.Sprintf("dynamic call of func value %s at %s: havoc all", c.Value.Name(), s.P.pos(pos)))
 		s.havocAll(st)
 		k(st, s.freshResults(st, sig, "dyn"))
